@@ -2,6 +2,14 @@
 COMMON = ["records are written by the harness from the real loader / runner; TLC evaluates the predicates of PCPlan / PCConfig on every record",
           "text-shaped inputs are token sequences rendered to YAML by the harness; the expected text is computed by the specification by concatenation"]
 PROPS = {
+    "C06": dict(sub="osstop", trace_spec="PCConfigTrace", prefix=["C06_"], start='"kind":', model=("PCStop", "PCStop_mc.cfg"), needs_pcbin=True,
+                level="exploration",
+                rule="real bash process trees (parent / child / grandchild) whose members trap and log every signal; parameters: signal in {unset,1,2,10,15,31,32,-1}, "
+                     "parent_only, timeout in {0,1,2}, shutdown command none/ok/fails/hangs, one member ignoring the signal; triggers StopProcess, ShutDownProject and "
+                     "SIGTERM/SIGINT/SIGHUP sent to the built binary; deaths observed through /proc",
+                assumptions=["real processes: the kernel schedules them; the instant of the stop is sampled (all members started), not enumerated",
+                             "time-out lower bounds are checked, upper bounds are not (beyond the watchdog)",
+                             "survivors are only demanded for members the configuration can reach (group-signalled members that die on the signal, or any member when a time-out is configured and the parent itself ignores the signal)"]),
     "C19": dict(sub="api", trace_spec="PCConfigTrace", prefix=["C19_"], start='"kind":',
                 rule="request sequences (45 per history) over all REST routes against a live runner with scripted commanders; path parameters from "
                      "{valid names, unknown, %2F, %20, very long, unicode, ..} and {-1,0,1,2,3,2^31,2^63,x,1.5,blank,1e3}; bodies valid / truncated / wrong types / empty; "
